@@ -103,10 +103,12 @@ Cmp(op, b) == /\ UNCHANGED <<s, mem>>
 
 \* number of code points at the head of the content and the bytes they take: the count stops at a NUL, at a byte that
 \* cannot start a character, and at a character cut short by the end of the CONTENT (not of the capacity)
+\* (this decoder takes a stray continuation byte as a unit of one byte - the property only fixes that multi-byte
+\* sequences need continuation bytes behind the lead and that 0xFE / 0xFF never start anything)
 RECURSIVE UtfWalk(_, _, _)
 UtfWalk(b, i, cnt) ==
   IF i > Len(b) THEN <<cnt, i - 1>>
-  ELSE LET L == LeadLen(b[i]) IN
+  ELSE LET L == IF IsCont(b[i]) THEN 1 ELSE LeadLen(b[i]) IN
        IF b[i] = 0 \/ L = 0 \/ i + L - 1 > Len(b) \/ ~(\A j \in 1..(L - 1) : IsCont(b[i + j])) THEN <<cnt, i - 1>>
        ELSE UtfWalk(b, i + L, cnt + 1)
 UtfLen == LET w == UtfWalk(s, 1, 0) IN
